@@ -396,6 +396,7 @@ def tie_steps(model, case, jr, its, lims_json, mism, tags, max_report=3):
     pre_tau = getattr(model, "pre_tau", None)
     for k, it in enumerate(its):
         appended = k < nrec
+        near = False
         x, t = it["x"], it["t"]
         # observed pre-state is the last recorded state (direct consistency, no Lean)
         if not (np.array_equal(x, X[k]) and t == T[k]):
@@ -453,7 +454,6 @@ def tie_steps(model, case, jr, its, lims_json, mism, tags, max_report=3):
                 ta = r["tau_attempt"]
                 tau_ok_obs = not it["retry"]
                 if ta["outcome"] == "checked":
-                    near = False
                     if ta["success"] != tau_ok_obs and np.any(np.ravel(it["pure"])) and tau_m is not None:
                         # x + pure*tau is a rounded float in the code and an exact rational in the model: a proposal that
                         # lands on a limit to within rounding may be judged differently (not a disagreement of algorithms)
@@ -472,6 +472,8 @@ def tie_steps(model, case, jr, its, lims_json, mism, tags, max_report=3):
                 elif tau_ok_obs and not all_zero:
                     mm("tau:outcome", "%s: model %s" % (where, ta["outcome"]))
         # outcome of the iteration
+        if near:
+            continue
         if appended:
             if r["out"] != "next":
                 mm("step:stop-vs-append", "%s: model stops (%s), code appended x=%s" % (where, r.get("why"), X[k + 1].tolist()))
